@@ -318,6 +318,26 @@ def do_replay(mod, path):
 TIER_BUDGET = {"quick": 55.0, "thorough": 780.0}
 
 
+def _remove_stale_scratch():
+    """Scratch trees of workers that were killed (watchdog, timeout) stay behind in /dev/shm."""
+    try:
+        names = os.listdir("/dev/shm")
+    except OSError:
+        return
+    for name in names:
+        if not name.startswith("verif-"):
+            continue
+        pid = name[6:]
+        if not pid.isdigit():
+            continue
+        try:
+            os.kill(int(pid), 0)
+        except ProcessLookupError:
+            shutil.rmtree(os.path.join("/dev/shm", name), ignore_errors=True)
+        except OSError:
+            pass
+
+
 def run_check(mod, tier="quick", seed=None, budget=None, workers=None, opts=None):
     t0 = time.time()
     if seed is None:
@@ -331,6 +351,7 @@ def run_check(mod, tier="quick", seed=None, budget=None, workers=None, opts=None
     per_scenario_limit = float(opts.get("scenario_wall_limit", 120.0))
     print(f"check {mod.PROPERTY} tier={tier} VERIF_SEED={seed} budget={budget:.0f}s workers={workers}")
     sys.stdout.flush()
+    _remove_stale_scratch()
     ctx = multiprocessing.get_context("fork")
     jobs = [
         (mod.__name__, seed, w, deadline, tier, per_scenario_limit, opts) for w in range(workers)
